@@ -15,7 +15,7 @@ INFO = {
                    'the reference reader (one exact Data element, name, content, content type, validity strings, key '
                    'locator), verified by the real verify_* code on the ideal primitives, and parsed by parse_certificate '
                    'and parse_data.',
-    'bounds': {'quick': {'signature_length': 'r in [0,72] (ECDSA issuer), fixed for RSA / Ed25519 / HMAC / DigestSha256',
+    'bounds': {'quick': {'signature_length': 'r in [32,72] (ECDSA issuer; the ideal model needs 32 bytes to bind the message; C01 covers [0,72] for the encoding), fixed for RSA / Ed25519 / HMAC / DigestSha256',
                          'public_key': '0..3 symbolic bytes; concrete lengths 32, 91, 150..260 step, 294',
                          'key_name': '1..3 components, 1 symbolic byte each', 'clock': '[0,2^64)',
                          'dates': '6 concrete instants incl. year / leap boundaries (formatting is C code)'}},
@@ -39,7 +39,7 @@ def h_cert(eng, case):
     from ndn.security.validator import known_key_validator as kv
     env.set_clock(lambda: eng.int('clock', 0, 2 ** 64 - 1))
     kind = case['signer']
-    signer = env.make_signer(eng, kind, rmin=case.get('rmin', 0))
+    signer = env.make_signer(eng, kind, rmin=max(32, case.get('rmin', 0)))   # < 32 bytes never verifies in the ideal model
     ncomp = case['name_comps']
     key_name = [bwrap([8, 1] + blist(eng.bytes('kn%d' % i, 1))) for i in range(ncomp)]
     pk = case['pubkey']
